@@ -6,6 +6,7 @@ func init() {
 	vHarnesses["H_C01_decode_nested"] = H_C01_decode_nested
 	vHarnesses["H_C01_decode_rich"] = H_C01_decode_rich
 	vHarnesses["H_C01_decode_values"] = H_C01_decode_values
+	vHarnesses["H_C01_decode_cast"] = H_C01_decode_cast
 }
 
 // vSetDecOpts drives the real option setters; arguments may be symbolic.
@@ -51,12 +52,15 @@ func vC01tree(root *vXElem, o vDecOpts, doc string) {
 	vSetDecOpts(o)
 	var m Map
 	var err error
-	if vChoose(2) == 0 {
+	if o.cast != nil {
+		m, err = NewMapXml([]byte(doc), true)
+	} else if vChoose(2) == 0 {
 		m, err = NewMapXml([]byte(doc))
 	} else {
 		m, err = NewMapXml([]byte(doc), false)
 	}
 	vResetDecOpts()
+	vResetCastOpts()
 	vAssert(err == nil, "decode: a well-formed document decodes without error")
 	vAssert(len(m) == 1, "decode: exactly one root key")
 	got, has := m[wantKey]
@@ -79,11 +83,11 @@ func H_C01_decode() {
 
 // default options: value syntax - entity references, CDATA, white space, attribute values
 func H_C01_decode_values() {
-	ts := vTreeSpec{depth: 0, maxAttrs: 1, nameAlpha: "a", attrAlpha: "b", textAlpha: "x <&\n", textMax: 2, cdata: true}
+	ts := vTreeSpec{depth: 0, maxAttrs: 1, nameAlpha: "a", attrAlpha: "b", textAlpha: "x <&\n\"'", textMax: 2, cdata: true}
 	if vTier() == 1 {
 		ts = vTreeSpec{depth: 1, maxKids: 1, maxAttrs: 1, nameAlpha: "a", attrAlpha: "b", textAlpha: "x <&\n\"'>", textMax: 2, cdata: true}
 	}
-	vC01(ts, vDecOpts{attrPrefix: "-", textKey: "#text"}, false)
+	vC01(ts, vDecOpts{attrPrefix: "-", textKey: "#text", escape: vNondetBool()}, false)
 }
 
 // default options: attributes, namespaces, comments, PIs, prolog
@@ -125,5 +129,26 @@ func H_C01_decode_opts() {
 	root := &vXElem{name: "r" + suffix,
 		attrs: [][2]string{{vNondetString(1, 1, "bB") + suffix, "&"}},
 		items: []vXItem{{kind: 1, text: vNondetString(1, 1, " x&")}, {kind: 0, el: k1}, {kind: 0, el: k2}}}
+	vC01tree(root, o, "")
+}
+
+// cast flag together with the structural options (tag sequence numbers, simple values as
+// map): the decoded structure is the documented one with each leaf cast independently
+func H_C01_decode_cast() {
+	co := vCastOpts{toInt: vNondetBool(), toFloat: vNondetBool(), toBool: vNondetBool()}
+	o := vDecOpts{attrPrefix: "-", textKey: "#text"}
+	o.seq = vNondetBool()
+	o.simpleAsMap = vNondetBool()
+	o.cast = func(s string, key string) interface{} {
+		v, _ := refCast(s, co)
+		return v
+	}
+	vals := []string{"1", "x", "true", "1.5", "-7", "0"}
+	k1 := &vXElem{name: "a", items: []vXItem{{kind: 1, text: vals[vChoose(len(vals))]}}}
+	k2 := &vXElem{name: vNondetString(1, 1, "ab"), items: []vXItem{{kind: 1, text: vals[vChoose(len(vals))]}}}
+	k3 := &vXElem{name: "c"}
+	root := &vXElem{name: "r", attrs: [][2]string{{"n", vals[vChoose(len(vals))]}},
+		items: []vXItem{{kind: 0, el: k1}, {kind: 0, el: k2}, {kind: 0, el: k3}}}
+	vSetCastOpts(co)
 	vC01tree(root, o, "")
 }
